@@ -196,6 +196,9 @@ func genCPorts(r *Rng) []CPort {
 	used := map[string]bool{}
 	for i := 0; i < n; i++ {
 		p := CPort{Port: Pick(r, portPool), Proto: Pick(r, []string{"TCP", "TCP", "UDP", "SCTP", ""})}
+		if p.Proto == "" { // written without a protocol: TCP by default, and the manifest must not say so
+			p.Proto, p.NoProto = "TCP", true
+		}
 		if r.P(55) {
 			nm := Pick(r, portNames)
 			if !used[nm] {
